@@ -23,6 +23,7 @@ against them at every run):
   item_open   (TelstateDataSource.__init__, from_url)
     ds_reads_chunk_info (has_store has_ts : bool) : bool    when chunk info (hence the flag streams) is consulted
     ds_upgrade_default : bool           default of the upgrade_flags keyword
+    ds_chunk_info_key : string          key of the opened stream's own chunk info
     ds_dumps_array : string             array whose (aligned) shape gives the number of synthesised timestamps
     url_keyword_wins : bool             from_url: keywords override the URL query
 """
@@ -286,15 +287,19 @@ def item_open(repo, out):
     if _u(defaults['upgrade_flags']) not in ('True', 'False'):
         raise TranslateError('%s: upgrade_flags default is not a boolean literal' % what)
     src = _u(init)
-    for fname in ('_upgrade_flags(', '_align_chunk_info(', "telstate['chunk_info']"):
+    for fname in ('_upgrade_flags(', '_align_chunk_info(', 'chunk_info=telstate['):
         if src.count(fname) != 1:
             raise TranslateError('%s: expected exactly one use of %s, found %d' % (what, fname, src.count(fname)))
+    if len(re.findall(r"telstate\[[^\]]*chunk_info[^\]]*\]", src)) != 1:
+        raise TranslateError('%s: chunk info is read from the telstate more than once' % what)
     gates = [s for s in init.body if isinstance(s, ast.If) and '_align_chunk_info(' in _u(s)]
     if len(gates) != 1 or gates[0].orelse:
         raise TranslateError('%s: chunk info is not prepared in exactly one top-level `if` without else' % what)
     gate = gates[0]
     gb = [_u(s).replace('\n', ';') for s in _no_log(gate.body)]
-    expect = ["chunk_info=telstate['chunk_info']",
+    m = _match(r"chunk_info=telstate\[%s\]" % STR, gb[0] if gb else '', what + ' own chunk info')
+    ci_key = m.group(1)
+    expect = [gb[0],
               'chunk_info=_ensure_prefix_is_set(chunk_info,telstate)',
               'ifupgrade_flags:;chunk_info=_upgrade_flags(chunk_info,telstate,capture_block_id,stream_name)',
               'chunk_info=_align_chunk_info(chunk_info)']
@@ -343,6 +348,7 @@ def item_open(repo, out):
             raise TranslateError('from_url: expected statement %s' % n)
     out.append('Definition ds_reads_chunk_info (has_store has_ts : bool) : bool := %s%%bool.' % cond)
     out.append('Definition ds_upgrade_default : bool := %s.' % _bool(_u(defaults['upgrade_flags']) == 'True'))
+    out.append('Definition ds_chunk_info_key : string := %s.' % coq_string(ci_key))
     out.append('Definition ds_dumps_array : string := %s.' % coq_string(arr))
     out.append('Definition url_keyword_wins : bool := %s.' % _bool(kw_wins))
 
